@@ -23,8 +23,7 @@ EvTexts == IsEv("TsTexts") /\ Accept /\ texts' = Ev.texts /\ UNCHANGED <<case, e
 \* so does a metric query (the command has no rendering for samples: it fails after evaluating, it does not print something else)
 ExitOk == ~exited /\ (Ev.ok = (badflag = <<>> /\ ~metric))
 EvExit == IsEv("Exit") /\ ExitOk /\ Accept /\ exited' = TRUE /\ UNCHANGED <<case, texts, badflag, metric>>
-E == Printed(case)
-RenderedOk == exited /\ (IF badflag = <<>> /\ ~metric THEN RD!CanParse(Ev.out, 1, E, DOMAIN E, {}, case.opts, texts) ELSE Ev.out = <<>>)
+RenderedOk == exited /\ (IF badflag = <<>> /\ ~metric THEN LET E == Printed(case) IN RD!CanParse(Ev.out, 1, E, DOMAIN E, {}, case.opts, texts) ELSE Ev.out = <<>>)
 EvRendered == IsEv("Rendered") /\ RenderedOk /\ Accept /\ UNCHANGED fam
 
 Explained == \/ Ev.ev \in {"Args", "TsTexts"}
